@@ -95,9 +95,10 @@ Neighbors find_neighbors_covertree_impl(RandomAccessIterator begin, RandomAccess
     // ask for k + 1 because one of the neighbors will be the actual query point
     cover_tree.k_nearest_neighbor(callback, ct, ct, res, k + 1);
 
+    // When the distance is not a metric numerically the tree may answer fewer queries than there are
+    // vectors: their lists stay empty here and find_neighbors falls back to the exhaustive search.
     Neighbors neighbors;
     neighbors.resize(end - begin);
-    assert(end - begin == res.index);
     for (int i = 0; i < res.index; ++i)
     {
         // res[i][0] is the query point, the rest is the unordered set of all points
